@@ -11,6 +11,16 @@ req  : dict(method, path, qargs=[(k, v)...], headers=[(k, v)...], body=bytes|Non
 resp : dict(kind='len'|'chunked'|'stream'|'empty'|'error_gen'|'error_call',
             status='200 OK', headers=[(k, v)...], pieces=[bytes...],
             error=dict(status, reason, title, detail, fault, headers))
+       or dict(kind='raise', style='gen'|'callable', start=bool, declared=None|int,
+            status, headers, pieces=[bytes... yielded BEFORE the error], error=...)
+            the application raises HTTPError at a chosen point:
+              start=False             before start_response (callable: while being called;
+                                      generator: at the first next())
+              start=True, pieces=[]   after start_response, before anything is yielded
+                                      (callable: still inside the call)
+              start=True, pieces=...  after yielding the pieces (b'' = idle yield); a callable
+                                      returns an iterator object whose __next__ raises
+            declared = Content-Length the application declared in start_response (or None)
 """
 import collections.abc  # noqa: F401
 import os
@@ -58,9 +68,50 @@ def run_exchange(req, resp, max_rounds=60):
         for p in resp.get("pieces", []):
             yield p
 
+    class RaisingIterator(object):
+        """iterator (not a generator) that yields the pieces, raises HTTPError once, then stops"""
+        def __init__(self, pieces):
+            self.todo = list(pieces)
+            self.raised = False
+
+        def __iter__(self):
+            return self
+
+        def __next__(self):
+            if self.todo:
+                return self.todo.pop(0)
+            if not self.raised:
+                self.raised = True
+                raise make_error(resp["error"])
+            raise StopIteration
+
+    def raise_headers():
+        hdrs = list(resp.get("headers", []))
+        if resp.get("declared") is not None:
+            hdrs.append(('Content-Length', str(resp["declared"])))
+        return hdrs
+
+    def raising_gen(environ, start_response):
+        if resp["start"]:
+            start_response(resp["status"], raise_headers())
+        for p in resp.get("pieces", []):
+            yield p
+        raise make_error(resp["error"])
+
+    def raising_callable(environ, start_response):
+        if resp["start"]:
+            start_response(resp["status"], raise_headers())
+        if not resp["start"] or not resp.get("pieces"):
+            raise make_error(resp["error"])
+        return RaisingIterator(resp["pieces"])
+
     def app(environ, start_response):
         record(environ)
         kind = resp["kind"]
+        if kind == 'raise':
+            if resp["style"] == 'gen':
+                return raising_gen(environ, start_response)
+            return raising_callable(environ, start_response)
         if kind == 'error_call':
             raise make_error(resp["error"])
         if kind in ('stream', 'error_gen'):
@@ -99,9 +150,13 @@ def run_exchange(req, resp, max_rounds=60):
             idle = idle + 1 if before == after else 0
             if idle >= 12:
                 break
+        # a client that answers early (HEAD) must not cut the observation of the server short
+        for _ in range(12):
+            alpha.serviceAll()
     except Exception as ex:
         error = "%s: %s" % (type(ex).__name__, ex)
     out = {"environ": seen[0] if seen else None, "calls": len(seen), "error": error, "response": None,
+           "client_rx": bytes(beta.connector.rxbs), "waited": beta.waited,
            "request_wire": bytes(net.connections[0][0].sent) if net.connections else b'',
            "response_wire": bytes(net.connections[0][1].sent) if net.connections else b''}
     if beta.responses:
